@@ -379,6 +379,12 @@ ROUND8 = {
  'C13': 'Round 8: invoking directory reached through a symbolic link with $PWD carrying that spelling.',
  'C18': 'Round 8: dist=False file objects named by steps stay out of the archive.',
  'C19': 'Round 8: objects of a program with an explicit intermediate_dir= in a submodule.',
+ 'C04': 'Round 8: role rootobj (object directly in the build directory, real linker); leading-dash findings identified by role.',
+ 'C12': 'Round 8: path component beginning with two dots.',
+ 'C15': 'Round 8: a dual-use library passed to install().',
+ 'C16': 'Round 8: two-word -D spelling in both CPPFLAGS and CFLAGS.',
+ 'C17': 'Round 8: build directory configured before with a longer description of the package.',
+ 'C20': 'Round 8: command lines of the MSBuild Exec task for every argument list.',
 }
 
 
